@@ -77,10 +77,10 @@ def run(rep, tier):
     for b in builds:
         jobs.append((b, dict(group="lib", level="O0", scev=True, tolerate=tuple(u.rel for u in b.group("lib", ("c++",))))))
     # the tools do not depend on the back end: analyse them once
-    jobs.append((builds[0], dict(group="asconcrypt", level="O0")))
-    jobs.append((builds[0], dict(group="asconsum", level="O0")))
+    jobs.append((builds[0], dict(group="asconcrypt", level="O0", scev=True)))
+    jobs.append((builds[0], dict(group="asconsum", level="O0", scev=True)))
     lowered = repo.lower_many(jobs)
-    for r in ("C12.D1", "C12.D1m", "C12.D2", "C12.D3", "C12.D4", "C12.D6", "C12.D7", "C12.D8", "C12.D9", "C12.D10", "C12.D11"):
+    for r in ("C12.D1", "C12.D1m", "C12.D2", "C12.D3", "C12.D4", "C12.D6", "C12.D7", "C12.D8", "C12.D9", "C12.D10", "C12.D11", "C12.D12"):
         rep.rule(r, {"C12.D1": "constant subscript inside its array",
                      "C12.D1m": "constant-extent block operation inside its object/member",
                      "C12.D2": "guard-bounded variable subscript below the array bound",
@@ -89,6 +89,7 @@ def run(rep, tier):
                      "C12.D6": "constant-extent access fits the guard-bounded remaining length",
                      "C12.D8": "length arithmetic keeps the full width of size_t (no zero-extended 32-bit mask)",
                      "C12.D9": "caller-supplied byte buffers are accessed with no alignment assumption",
+                     "C12.D12": "a loop counter used as subscript of a stack array is bounded by a test on the counter or by the loop's trip count",
                      "C12.D11": "a signed call result used as a byte count is first shown to be non-negative",
                      "C12.D10": "a block write of the buffer's whole length starts at the buffer, not at an advanced cursor",
                      "C12.D7": "bytes a callee always accesses through a pointer parameter fit the object passed at each call site"}[r])
@@ -562,7 +563,14 @@ def check_function(rep, m, f, lay, cname):
                         if hi >= (1 << (ranges._w(d.d.get("fromty", "i32")) - (1 if d.op == "sext" else 0))):
                             hi = ranges.MAXU
                     if hi == ranges.MAXU or hi >= (1 << 31):
-                        continue           # nothing known: not decided (no alarm)
+                        # nothing known from guards.  One case is still decided: the subscript of an array on the function's
+                        # own stack is a counter that grows on every iteration of a loop, no test in the function looks at
+                        # the counter, and scalar evolution finds no constant bound for the loop either
+                        why = _unbounded_counter(f, R, i, idx, bound)
+                        if why:
+                            rep.violation("C12.D12", "%s:counter-into-%d" % (f.name, bound), i.where(),
+                                          "%s: %s" % (f.name, why), config=cname)
+                        continue           # otherwise: not decided (no alarm)
                     if hi >= bound and not _bound_is_attained(f, RG, idx, i.block.name, hi):
                         # the interval is an over-approximation (bit operations, loop joins, selects): the bound may not
                         # be reachable, so this is no finding
@@ -587,6 +595,86 @@ def check_function(rep, m, f, lay, cname):
                     rep.instance("C12.D4", 1)
         elif i.op in ("call", "invoke"):
             check_memop(rep, m, f, i, R, lay, cname)
+
+
+def _unbounded_counter(f, R, gep, idx, bound):
+    """-> description if idx is an untested, ever-growing loop counter indexing an
+    array of `bound` elements on f's own stack; else None"""
+    root = R.resolve(gep.ops[0]).single()
+    if root is None or root[0] != "alloca":
+        return None
+    v = idx
+    for _ in range(4):
+        d = f.defs.get(v) if ir.is_local(v) else None
+        if d is not None and d.op in ("zext", "sext", "trunc"):
+            v = d.ops[0]
+        else:
+            break
+    p = f.defs.get(v) if ir.is_local(v) else None
+    if p is None or p.op != "phi":
+        return None
+    lp = None
+    for l in f.d.get("loops", []):
+        if l["header"] == p.block.name:
+            lp = l
+    if lp is None:
+        return None
+    blocks = set(lp["blocks"])
+    latch = [x for x, pr in p.d["inc"] if pr in blocks]
+    init = [x for x, pr in p.d["inc"] if pr not in blocks]
+    if not latch or any(ir.const_int(x) is None for x in init):
+        return None
+    # every value carried back is the counter itself or the counter plus a positive constant (through merges)
+    names, todo, grows = {p.id}, list(latch), False
+    seen = set()
+    while todo:
+        x = todo.pop()
+        if x in seen or x == p.id:
+            continue
+        seen.add(x)
+        d = f.defs.get(x) if ir.is_local(x) else None
+        if d is None:
+            return None
+        if d.op == "add" and ir.const_int(d.ops[1]) is not None and 0 < ir.const_int(d.ops[1]) < 4096:
+            grows = True
+            names.add(d.id)
+            todo.append(d.ops[0])
+        elif d.op == "phi" and d.block.name in blocks:
+            names.add(d.id)
+            todo += [y for y, _ in d.d["inc"]]
+        else:
+            return None
+    if not grows:
+        return None
+    # any test that involves the counter (or a width change of it) means: decided elsewhere or not at all
+    ext = set(names)
+    grew = True
+    while grew:
+        grew = False
+        for i in f.insts():
+            if i.id and i.id not in ext and (
+                    (i.op in ("zext", "sext", "trunc") and i.ops[0] in ext) or
+                    (i.op in ("add", "sub", "shl", "lshr", "mul") and isinstance(i.ops[0], str) and i.ops[0] in ext
+                     and ir.const_int(i.ops[1]) is not None)):
+                ext.add(i.id)
+                grew = True
+    dom = f.dominators().get(gep.block.name, ())
+    for i in f.insts():
+        # tests inside the loop or on the way to the access are guards; a test after the loop is not
+        if i.block.name not in blocks and i.block.name not in dom:
+            continue
+        if i.op == "icmp" and any(isinstance(o, str) and o in ext for o in i.ops):
+            return None
+        if i.op == "switch" and i.ops and i.ops[0] in ext:
+            return None
+    mx = lp.get("btc_max")
+    start = max(ir.const_int(x) for x in init)
+    if mx is not None and mx < (1 << 31) and start + mx < bound:
+        return None
+    return ("the subscript of this %d-element stack array is a counter that starts at %d and grows on every iteration of the loop; "
+            "no test in the function looks at the counter and the loop has no constant trip bound%s, so the access runs past the "
+            "array when the loop's other conditions allow %d or more iterations" % (
+                bound, start, "" if mx is None else " below %d" % (mx + 1), bound - start))
 
 
 def _bound_is_attained(f, RG, idx, block, hi):
